@@ -59,7 +59,8 @@ type DB struct {
 	mergedRoots      map[string][]byte
 	unmergeableRoots int
 	tombstoned       bool
-	kvVersion        int // crdt.Root.KVVersion, root format version (0, 1)
+	commitFailed     error // set by a Commit that failed after the flush began
+	kvVersion        int   // crdt.Root.KVVersion, root format version (0, 1)
 }
 
 // Config defines how values are stored and (un)marshaled.
@@ -551,6 +552,13 @@ func loadRoot(ctx context.Context, persist mast.Persist, key string) (*crdt.Root
 
 // Commit ensures any Set() entries become accessible on subsequent Open()s.
 func (s *DB) Commit(ctx context.Context) (*string, error) {
+	if s.commitFailed != nil {
+		// The flush marks nodes as stored before their PUT has succeeded,
+		// so after a failed attempt the tree looks clean: a second Commit
+		// would report success without having stored anything (or publish a
+		// version that links to nodes that were never written).
+		return nil, fmt.Errorf("an earlier Commit of this handle failed (%w); Cancel it and open again", s.commitFailed)
+	}
 	if !s.IsDirty() && !s.tombstoned && (s.crdt.Source != nil && len(s.crdt.MergeSources) <= 1 ||
 		s.crdt.Source == nil && len(s.crdt.MergeSources) == 0) {
 		return s.crdt.Source, nil
@@ -560,6 +568,7 @@ func (s *DB) Commit(ctx context.Context) (*string, error) {
 	}
 	root, err := s.crdt.MakeRoot(ctx)
 	if err != nil {
+		s.commitFailed = err
 		return nil, fmt.Errorf("mast makeroot: %w", err)
 	}
 	root.KVVersion = s.kvVersion
@@ -585,6 +594,7 @@ func (s *DB) Commit(ctx context.Context) (*string, error) {
 	name := fmt.Sprintf("%s%06s_%s", s.cfg.CustomRootPrefix, crTime, hash)
 	err = s.root.Store(ctx, name, rootBytes)
 	if err != nil {
+		s.commitFailed = err
 		return nil, fmt.Errorf("store: %w", err)
 	}
 	s.moveMergedRoots(ctx, name, s.mergedRoots)
